@@ -74,3 +74,99 @@ def no_args_literal(fn):
             lit = hir.lit_value(n["args"][0])
             out.append((n, [("lit", lit)]))
     return out
+
+
+# ---- texts assembled piece by piece -------------------------------------------------------------
+
+_BUILDER_INIT_EMPTY = {"new", "with_capacity", "default"}
+_BUILDER_INIT_FROM = {"from", "to_string", "into_owned", "to_owned", "clone", "into", "to_str", "as_str"}
+
+
+def _strip_ref(e):
+    e = hir.peel(e)
+    while True:
+        if e.get("k") == "AddrOf":
+            e = hir.peel(e.get("x") or e.get("e"))
+        elif e.get("k") == "Unary" and e.get("op") == "Deref":
+            e = hir.peel(e["x"])
+        elif e.get("k") == "MethodCall" and e["method"] in ("as_str", "as_ref", "borrow", "deref", "as_mut_str"):
+            e = hir.peel(e["recv"])
+        else:
+            return e
+
+
+def _builders(fn):
+    """[(let-init node, pieces)] for local Strings filled by push_str / push / += / X.encode_string(.., &mut s)"""
+    out = []
+    binds = fn.bindings()
+    for lid, b in binds.items():
+        if b["origin"][0] != "let" or not b.get("mut") or (b.get("ty") or "") != "std::string::String":
+            continue
+        init = b["origin"][1]
+        pieces = []
+        if init is not None:
+            i0 = hir.peel(init)
+            nm = (hir.callee_name(i0) or i0.get("method") or "") if hir.is_call(i0) else ""
+            if nm in _BUILDER_INIT_EMPTY:
+                pass
+            elif nm in _BUILDER_INIT_FROM and hir.call_args(i0):
+                pieces.append(("arg", _strip_ref(hir.call_args(i0)[0])))
+            else:
+                pieces.append(("arg", i0))
+        fills = 0
+        for n in fn.nodes():
+            if n.get("k") == "MethodCall" and (hir.local_of(hir.peel(n["recv"])) or (None,))[0] == lid:
+                if n["method"] == "push_str" and n["args"]:
+                    v0 = _strip_ref(n["args"][0])
+                    lv = hir.lit_value(v0) if v0.get("k") == "Lit" else None
+                    pieces.append(("lit", lv) if isinstance(lv, str) else ("arg", v0))
+                    fills += 1
+                elif n["method"] == "push" and n["args"]:
+                    v = hir.lit_value(hir.peel(n["args"][0]))
+                    pieces.append(("lit", v) if isinstance(v, str) else ("arg", hir.peel(n["args"][0])))
+                    fills += 1
+                elif n["method"] in ("insert_str", "insert", "clear", "truncate", "replace_range", "retain", "drain", "extend"):
+                    pieces.append(("arg", n))
+                    fills += 1
+            elif n.get("k") == "AssignOp" and (hir.local_of(hir.peel(n["l"])) or (None,))[0] == lid:
+                pieces.append(("arg", _strip_ref(n["r"])))
+                fills += 1
+            elif hir.is_call(n) and not n.get("exp") and n.get("k") != "MethodCall" or (n.get("k") == "MethodCall" and (hir.local_of(hir.peel(n["recv"])) or (None,))[0] != lid and hir.is_call(n)):
+                # the string handed out as `&mut s`: an encoder / writer appends to it
+                for a in hir.call_args(n)[1:] if n.get("k") == "MethodCall" else hir.call_args(n):
+                    cur = a
+                    while cur.get("k") in ("DropTemps", "Use"):
+                        cur = cur.get("x") or cur.get("e")
+                    if ((cur.get("aty") or cur.get("ty") or "").startswith("&mut ")) and (hir.local_of(hir.peel(cur)) or (None,))[0] == lid:
+                        pieces.append(("arg", n))
+                        fills += 1
+                        break
+        if fills:
+            out.append((init if init is not None else b["node"], pieces))
+    return out
+
+
+def text_assemblies(prog, fn):
+    """[(node, pieces)] for the texts fn puts together: format_args expansions and String builders.  Crate
+    constants that are string literals are folded, adjacent literal pieces merged."""
+    raw = formats_in(fn) + _builders(fn)
+    out = []
+    for node, pieces in raw:
+        norm = []
+        for k, v in pieces:
+            if k == "arg":
+                dp = hir.def_path_of(_strip_ref(v)) if isinstance(v, dict) else None
+                val = None
+                if dp:
+                    try:
+                        val = prog.const_str(dp)
+                    except Exception:
+                        val = None
+                if isinstance(val, str):
+                    k, v = "lit", val
+            if k == "lit" and norm and norm[-1][0] == "lit":
+                norm[-1] = ("lit", norm[-1][1] + v)
+            else:
+                norm.append((k, v))
+        out.append((node, norm))
+    return out
